@@ -562,11 +562,11 @@ func ruleRelease(c *Ctx) *RuleResult {
 					return false
 				}
 				fa, ok := u.X.(*ssa.FieldAddr)
-				if !ok || fa.X != rm.Params[0] {
+				if !ok {
 					return false
 				}
-				_, _, fn := fieldOfAddr(fa)
-				return fn == "parent"
+				_, tn, fn := fieldOfAddr(fa)
+				return tn == "runtimeContextManager" && fn == "parent"
 			}
 			nAbort := 0
 			for _, b := range rm.Blocks {
